@@ -19,10 +19,10 @@ from harness import httpgen as G
 PROPERTY = 'C02'
 LEAN_TARGETS = ['PxProofs.C02']
 THEOREMS = [
-    'Px.Forward.C02_headers', 'Px.Forward.C02_no_credentials', 'Px.Forward.C02_no_credentials_bytes',
-    'Px.Forward.C02_first_partial', 'Px.Forward.C02_later_partial', 'Px.Forward.C02_later_witness_noVia',
-    'Px.Forward.C02_chunked', 'Px.Forward.C02_chunked_wellformed_partial', 'Px.Forward.C02_content_length',
-    'Px.Forward.C02_single_piece', 'Px.Forward.C02_via_appended',
+    'Px.Forward.C02_first', 'Px.Forward.C02_later_partial', 'Px.Forward.C02_later_witness_noVia',
+    'Px.Forward.C02_headers', 'Px.Forward.C02_no_credentials', 'Px.Forward.C02_chunked',
+    'Px.Forward.C02_content_length', 'Px.Forward.C02_content_length_repeated', 'Px.Forward.C02_via_appended',
+    'Px.Forward.forward_wf', 'Px.Forward.parse_render', 'Px.Forward.semEq_impl_spec', 'Px.Forward.parse_pinv',
 ]
 RULE = ('connections of 1-3 requests generated from the specification-side Req (method, absolute-form target, '
         'version, 0-12 fields with random name casing / OWS incl. Proxy-Authorization, Proxy-Connection, '
@@ -48,6 +48,21 @@ EXPLANATION = ('theorems quantify over all well-formed requests and all segmenta
                'to the code on generated connections')
 
 logging.disable(logging.CRITICAL)
+
+
+def _warm():
+    """Import everything the runs need once, in the parent process, before the engine forks its
+    pool (a first FlagParser.initialize per worker costs seconds on a loaded machine)."""
+    import h11  # noqa: F401
+    import proxy.http.handler  # noqa: F401
+    import proxy.http.proxy.server  # noqa: F401
+    import proxy.core.connection.server  # noqa: F401
+    from proxy.common.flag import FlagParser
+    FlagParser.initialize([], threadless=True)
+    FlagParser.initialize(['--disable-headers', 'x-a'], threadless=True)
+
+
+_warm()
 
 CRLF = b'\r\n'
 RESPONSES = [
@@ -691,15 +706,15 @@ def corpus():
 
 def generate(rng, tier):
     thorough = tier == 'thorough'
-    n_conn = 3200 if thorough else 420
+    n_conn = 9000 if thorough else 420
     for _ in range(n_conn):
         disable = rng.choice(DISABLE_SETS)
         k = rng.choice([1, 1, 2, 2, 3])
         reqs = []
         for i in range(k):
             nb = None
-            if thorough and rng.random() < 0.04:
-                nb = rng.choice([3000, 5000])
+            if thorough and rng.random() < 0.03:
+                nb = rng.choice([3000, 5000, 20000])
             reqs.append(gen_req(rng, disable, i == 0, nbody=nb, allow_upgrade=(i == k - 1)))
         yield _conn(reqs, disable)
         # every cut position / byte-wise feeding of small requests
@@ -719,7 +734,8 @@ def generate(rng, tier):
                 yield _conn(reqs[:rng.randrange(0, len(reqs))] +
                             [{'raw': raw.hex(), 'cuts': G.cuts(rng, len(raw), rng.choice([0, 1, 2]))}], disable)
     # large bodies: a handful
-    for nb in ([65535, 65536, 70 * 1024, 131072, 131073, 200000] if thorough else [65536, 70 * 1024, 131073]):
+    for nb in ([65535, 65536, 70 * 1024, 71000, 131071, 131072, 131073, 200000, 262145] if thorough
+               else [65536, 70 * 1024, 131073]):
         for fr in ('cl', 'chunked'):
             disable = rng.choice(DISABLE_SETS)
             r = gen_req(rng, disable, True, nbody=nb)
